@@ -1,6 +1,7 @@
 (* C01 - logical operators are exact pointwise Boolean operations.
    Statements only; proofs are in Proofs/Logic.v. *)
 From Coq Require Import List NArith Bool.
+From V Require Proofs.ExprsTie.   (* the kernels' word-level expressions, regenerated from the Rust source, equal the model's *)
 From V Require Import Base.Res Model.Kernels Model.Api Spec.Bfun Proofs.Logic.
 Import ListNotations.
 Open Scope N_scope.
